@@ -11,7 +11,7 @@ import (
 )
 
 var c07Floor = []string{"cte.1", "cte.chain2", "cte.chain3", "cte.twice.join", "cte.twice.union", "cte.twice.insub", "cte.selector", "derived", "derived.where",
-	"subq.nested", "subq.root", "subq.in", "subq.agg", "exists", "exists.outer", "subq.root-correlated", "derived.join", "subq.with", "agg.stages", "inner.agg", "inner.order", "inner.filter", "cte.mixedcase", "exists.outer.marker", "exists.sparse", "subq.in.null-left", "exists.shadow", "exists.outer.marker-is", "cte.named-like-its-table", "cte.nested-with", "cte.nested-with.twice", "subq.in.qualified-item", "subq.notin"}
+	"subq.nested", "subq.root", "subq.in", "subq.agg", "exists", "exists.outer", "subq.root-correlated", "derived.join", "subq.with", "agg.stages", "exists.dual", "inner.agg", "inner.order", "inner.filter", "cte.mixedcase", "exists.outer.marker", "exists.sparse", "subq.in.null-left", "exists.shadow", "exists.outer.marker-is", "cte.named-like-its-table", "cte.nested-with", "cte.nested-with.twice", "subq.in.qualified-item", "subq.notin"}
 
 func init() {
 	fw.Register(&fw.Prop{
@@ -216,9 +216,9 @@ func hasCol(t *gen.Table, name string) bool {
 }
 
 func c07Run(c *fw.Case) {
-	kind := c07Floor[c.Idx%19] // the first 19 entries are pipeline kinds
-	if c.Idx >= 3*19 {
-		kind = c07Floor[c.Intn(19)]
+	kind := c07Floor[c.Idx%20] // the first 20 entries are pipeline kinds
+	if c.Idx >= 3*20 {
+		kind = c07Floor[c.Intn(20)]
 	}
 	doc, t, u := c07Doc(c)
 	feats := []string{kind}
@@ -784,6 +784,42 @@ func c07Run(c *fw.Case) {
 		det["expected_rids"] = want
 		if !val.SameSeq(Rids(o.Rows), want) {
 			c.Violate("in-subquery", fmt.Sprintf("IN (subquery) kept rids %v, row-by-row evaluation keeps %v", Rids(o.Rows), want), det)
+			return
+		}
+		if len(want) > 0 && len(want) < len(t.Rows) {
+			c.Nontrivial(composed + "|" + val.Canon(doc))
+		}
+
+	case "exists.dual":
+		// EXISTS over the one-row source dual: true exactly when the outer row
+		// satisfies the subquery's WHERE (the outer row's columns are visible)
+		pg := &gen.PredGen{R: c.R, T: t, MaxDepth: 2, Disable: map[string]bool{"in.subquery": true}}
+		p := pg.Gen()
+		neg := c.Chance(0.3)
+		sub := "SELECT 1 AS one FROM dual WHERE " + gen.RenderPred(p, gen.RenderOpts{})
+		composed := "SELECT rid FROM t1 WHERE " + map[bool]string{true: "NOT ", false: ""}[neg] + "EXISTS (" + sub + ")"
+		var want []any
+		for _, row := range t.Rows {
+			so := Run(val.CopyMap(row), sub)
+			c.Evals(1)
+			if !so.OK() {
+				c.Discard("standalone failed")
+				return
+			}
+			if (len(so.Rows) > 0) != neg {
+				want = append(want, row["rid"])
+			}
+		}
+		o := Run(fresh(), composed)
+		c.Evals(1)
+		c.Sample(map[string]any{"composed": composed})
+		det := map[string]any{"sql": composed, "doc": doc, "observed": o.Describe(), "expected_rids": want}
+		if !o.OK() {
+			c.Violate("error", fmt.Sprintf("EXISTS over dual failed: %v", o.Describe()), det)
+			return
+		}
+		if !val.SameSeq(Rids(o.Rows), want) {
+			c.Violate("exists", fmt.Sprintf("EXISTS over dual kept rids %v, the subquery run on each row alone keeps %v", Rids(o.Rows), want), det)
 			return
 		}
 		if len(want) > 0 && len(want) < len(t.Rows) {
